@@ -1,7 +1,8 @@
 (* C17 — access paths. A source is a byte string behind a stream interface with capabilities
-   (seekable, has_readinto); every method call made on it is logged. `read_via` follows
-   laspy.open(source, read_evlrs=e) followed by LasReader.read() (whole) or by a chunk iterator
-   and then read() (chunked):
+   (seekable() answers true, has readinto, has a seekable method at all); every method call made on it is logged.
+   `read_via` follows laspy.open(source, read_evlrs=e), a list of consumption steps (chunk iterators, read_points
+   calls) and LasReader.read(); `consume_via` stops before read(): what the reader shows and what was handed out when
+   the caller only inspects it or only iterates:
      lib.open_las (source normalisation: every source kind ends up as a stream with two capabilities),
      LasHeader.read_from / _prefetch_header_data (two reads) / read_evlrs (seek based, position restored),
      LasReader.read_points / read (deferred EVLRs: seek based when seekable, sequential otherwise),
@@ -21,9 +22,11 @@ Open Scope Z_scope.
 (* ------------------------------------------------------------------------------------ *)
 Inductive sop := ORead (n : Z) | OReadInto (n : Z) | OSeek (p : Z) | OTell | OSeekable.
 
-(* c_has_seekable: the source has a `seekable` method at all (a stream that offers only read() has not: asking raises
-   AttributeError, reported as EOther, and nothing is logged since nothing was called) *)
+(* c_has_seekable: the source has a `seekable` method at all. A stream that offers only read() has not: the library asks
+   through getattr(stream, "seekable", lambda: False)(), so such a stream counts as not seekable and nothing is called on it *)
 Record caps := mkCaps { c_seekable : bool; c_readinto : bool; c_has_seekable : bool }.
+(* the source can be moved: it says so *)
+Definition can_seek (c : caps) : bool := c_has_seekable c && c_seekable c.
 Record stream := mkSt { st_bytes : list Z; st_pos : Z; st_log : list sop }.
 
 (* the bytes from the current position on *)
@@ -41,6 +44,9 @@ Definition s_seek (p : Z) (s : stream) : stream := mkSt (st_bytes s) p (st_log s
 Definition s_tell (s : stream) : Z * stream := (st_pos s, mkSt (st_bytes s) (st_pos s) (st_log s ++ [OTell])).
 Definition s_seekable (c : caps) (s : stream) : bool * stream :=
   (c_seekable c, mkSt (st_bytes s) (st_pos s) (st_log s ++ [OSeekable])).
+(* getattr(stream, "seekable", lambda: False)() *)
+Definition s_can_seek (c : caps) (s : stream) : bool * stream :=
+  if c_has_seekable c then s_seekable c s else (false, s).
 
 (* ------------------------------------------------------------------------------------ *)
 (* header                                                                                *)
@@ -104,12 +110,11 @@ Definition h_nev (rh : rheader) : Z := aint (rh_fields rh) "number_of_evlrs".
 Definition h_evstart (rh : rheader) : Z := aint (rh_fields rh) "start_of_first_evlr".
 Definition h_count (rh : rheader) : Z := aint (rh_fields rh) "point_count".
 
-(* LasHeader.read_evlrs(stream) *)
+(* LasHeader.read_evlrs(stream): the capability is asked once for a 1.4 file, whatever the number of EVLRs *)
 Definition hdr_read_evlrs (c : caps) (rh : rheader) (s : stream) : result rheader * stream :=
   if h_minor rh >=? 4 then
+    let '(sk, s1) := s_can_seek c s in
     if h_nev rh >? 0 then
-      if negb (c_has_seekable c) then (Err EOther, s) else      (* stream.seekable: AttributeError *)
-      let '(sk, s1) := s_seekable c s in
       if sk then
         let '(saved, s2) := s_tell s1 in
         let s3 := s_seek (h_evstart rh) s2 in
@@ -118,10 +123,8 @@ Definition hdr_read_evlrs (c : caps) (rh : rheader) (s : stream) : result rheade
         | Ok l => (Ok (with_evlrs rh (Some l)), s_seek saved s4)
         | Err e => (Err e, s4)
         end
-      else
-        let '(_, s2) := s_seekable c s1 in      (* `elif ... and not stream.seekable()` asks again *)
-        (Ok (with_evlrs rh None), s2)
-    else (Ok (with_evlrs rh (Some [])), s)
+      else (Ok (with_evlrs rh None), s1)
+    else (Ok (with_evlrs rh (Some [])), s1)
   else (Ok (with_evlrs rh None), s).
 
 (* laspy.open(source, read_evlrs=e): LasReader.__init__ -> LasHeader.read_from *)
@@ -143,9 +146,9 @@ Definition open_reader (c : caps) (read_evlrs : bool) (s : stream) : result rhea
 (* ------------------------------------------------------------------------------------ *)
 (* UncompressedPointReader.read_n_points, then PackedPointRecord.from_buffer *)
 Definition read_n_points (c : caps) (ps n : Z) (s : stream) : result (list (list Z)) * stream :=
+  if ps <=? 0 then (Err EValue, s) else      (* not reachable: a header that parses has a positive point size *)
   let '(data, s1) := if c_readinto c then s_readinto (n * ps) s else s_read (n * ps) s in
-  (if ps <=? 0 then Err EValue
-   else if len data mod ps =? 0 then Ok (chunks_of (length data) (Z.to_nat ps) data) else Err EValue, s1).
+  (if len data mod ps =? 0 then Ok (chunks_of (length data) (Z.to_nat ps) data) else Err EValue, s1).
 
 (* LasReader.read_points(n) with points_read = pr: the records, the new points_read, the stream.
    Nothing left: an empty record, and no point source is created (no call on the stream). *)
@@ -176,8 +179,7 @@ Definition is_none {A} (o : option A) : bool := match o with None => true | Some
 (* the EVLR part of LasReader.read(): load what was not loaded at opening *)
 Definition finish_evlrs (c : caps) (rh : rheader) (s : stream) : result rheader * stream :=
   if (h_minor rh >=? 4) && (h_nev rh >? 0) && is_none (rh_evlrs rh) then
-    if negb (c_has_seekable c) then (Err EOther, s) else      (* source.seekable: AttributeError *)
-    let '(sk, s1) := s_seekable c s in          (* self.point_source.source.seekable() *)
+    let '(sk, s1) := s_can_seek c s in          (* getattr(self.point_source.source, "seekable", lambda: False)() *)
     if sk then hdr_read_evlrs c rh s1             (* self.read_evlrs() *)
     else
       (* "we assume that the first evlr start just after the last point" *)
@@ -186,16 +188,33 @@ Definition finish_evlrs (c : caps) (rh : rheader) (s : stream) : result rheader 
   else if (h_minor rh >=? 4) && is_none (rh_evlrs rh) then (Ok (with_evlrs rh (Some [])), s)
   else (Ok rh, s).
 
-(* open, read everything (chunk = None: one read(); Some k: iterate by k then read()), the result and the call log *)
-Definition read_via (c : caps) (read_evlrs : bool) (chunk : option Z) (src : list Z) : result lasfile * list sop :=
+(* the ways of consuming an open reader before read(): `for chunk in reader.chunk_iterator(k)`, reader.read_points(n) *)
+Inductive step := SChunks (k : Z) | SPoints (n : Z).
+
+Fixpoint run_steps (fuel : nat) (c : caps) (rh : rheader) (steps : list step) (pr : Z) (s : stream)
+  : result (list (list Z)) * Z * stream :=
+  match steps with
+  | [] => (Ok [], pr, s)
+  | st :: more =>
+      let '(r, pr1, s1) := match st with
+                           | SChunks k => chunk_loop fuel c rh k pr s
+                           | SPoints n => read_points c rh pr n s
+                           end in
+      match r with
+      | Err e => (Err e, pr1, s1)
+      | Ok recs =>
+          let '(r2, pr2, s2) := run_steps fuel c rh more pr1 s1 in
+          (match r2 with Ok m => Ok (recs ++ m) | Err e => Err e end, pr2, s2)
+      end
+  end.
+
+(* open, consume by the steps, then read(): the result and the call log *)
+Definition read_via (c : caps) (read_evlrs : bool) (steps : list step) (src : list Z) : result lasfile * list sop :=
   let '(o, s1) := open_reader c read_evlrs (mkSt src 0 []) in
   match o with
   | Err e => (Err e, st_log s1)
   | Ok rh =>
-      let '(r1, pr1, s2) := match chunk with
-                            | None => (Ok [], 0, s1)
-                            | Some k => chunk_loop (S (length src)) c rh k 0 s1
-                            end in
+      let '(r1, pr1, s2) := run_steps (S (length src)) c rh steps 0 s1 in
       match r1 with
       | Err e => (Err e, st_log s2)
       | Ok recs1 =>
@@ -212,12 +231,44 @@ Definition read_via (c : caps) (read_evlrs : bool) (chunk : option Z) (src : lis
       end
   end.
 
+(* open and consume by the steps, WITHOUT read(): the header the reader shows then (reader.header, reader.evlrs) and the
+   records handed out. No step: the reader is only inspected. *)
+Definition consume_via (c : caps) (read_evlrs : bool) (steps : list step) (src : list Z) : result lasfile * list sop :=
+  let '(o, s1) := open_reader c read_evlrs (mkSt src 0 []) in
+  match o with
+  | Err e => (Err e, st_log s1)
+  | Ok rh =>
+      let '(r1, _, s2) := run_steps (S (length src)) c rh steps 0 s1 in
+      match r1 with
+      | Err e => (Err e, st_log s2)
+      | Ok recs1 => (Ok (mkLF rh recs1), st_log s2)
+      end
+  end.
+
+(* read_evlrs when the caller does not say (laspy.open(source), laspy.read(source), LasReader(source)): the default of the
+   source (Gen/GenAccess.v), the same for every kind of source *)
+Definition default_read_evlrs : bool := open_read_evlrs_default.
+
 (* laspy.open(source, read_evlrs=e) alone: the header the reader shows before anything is read (reader.header), and the calls *)
 Definition open_via (c : caps) (read_evlrs : bool) (src : list Z) : result rheader * list sop :=
   let '(o, s1) := open_reader c read_evlrs (mkSt src 0 []) in (o, st_log s1).
 
 Definition no_seek_tell (l : list sop) : bool :=
   forallb (fun o => match o with OSeek _ | OTell => false | _ => true end) l.
+(* every call of the log is one the source offers *)
+Definition offered (c : caps) (o : sop) : bool :=
+  match o with
+  | ORead _ => true
+  | OReadInto _ => c_readinto c
+  | OSeekable => c_has_seekable c
+  | OSeek _ | OTell => can_seek c
+  end.
+Definition only_offered (c : caps) (l : list sop) : bool := forallb (offered c) l.
+(* the call sequence up to what depends on the optional methods of the source: the capability queries are dropped and a
+   readinto(buffer of n bytes) counts as the read(n) it replaces *)
+Definition not_query (o : sop) : bool := match o with OSeekable => false | _ => true end.
+Definition norm_op (o : sop) : sop := match o with OReadInto n => ORead n | _ => o end.
+Definition norm (l : list sop) : list sop := map norm_op (filter not_query l).
 
 (* ------------------------------------------------------------------------------------ *)
 (* memory map                                                                            *)
@@ -244,6 +295,13 @@ Definition read_mmap (f : list Z) : result lasfile :=
 (* las.<dim>[i] = v through the map: the bytes `bs` of the (byte-aligned) field that holds the
    dimension, at byte `o` of record `i`, are stored in place *)
 Definition mmap_set (f : list Z) (off ps i o : Z) (bs : list Z) : list Z := write_at f (off + i * ps + o) bs.
+(* las.<dim> = values / las[<dim>] = values / las.<dim>[:] = values through the map: one value per record, from record i on *)
+Fixpoint mmap_set_from (f : list Z) (off ps i o : Z) (vals : list (list Z)) : list Z :=
+  match vals with
+  | [] => f
+  | bs :: more => mmap_set_from (mmap_set f off ps i o bs) off ps (i + 1) o more
+  end.
+Definition mmap_set_dim (f : list Z) (off ps o : Z) (vals : list (list Z)) : list Z := mmap_set_from f off ps 0 o vals.
 
 (* ------------------------------------------------------------------------------------ *)
 (* the files the independence theorems speak about                                       *)
@@ -256,10 +314,13 @@ Definition laid_out (f : list Z) (rh : rheader) : Prop :=
   dec_header f false = Ok rh /\ bytes_ok f = true /\ rh_compressed rh = false /\ 0 < rh_psize rh /\ points_present f rh.
 (* the file has EVLRs to fetch: the only case in which the library has to know whether the source can seek *)
 Definition needs_evlrs (rh : rheader) : bool := (h_minor rh >=? 4) && (h_nev rh >? 0).
-(* the source can say whether it seeks, or it is never asked *)
-Definition can_answer (c : caps) (rh : rheader) : Prop := c_has_seekable c = true \/ needs_evlrs rh = false.
 (* EVLRs are loaded when the file is opened iff that was asked for and the source can seek (or there is nothing to load) *)
-Definition loads_at_open (c : caps) (e : bool) (rh : rheader) : bool := e && (c_seekable c || negb (needs_evlrs rh)).
+Definition loads_at_open (c : caps) (e : bool) (rh : rheader) : bool := e && (can_seek c || negb (needs_evlrs rh)).
 (* the first EVLR starts right after the last point: what a source that cannot seek has to assume *)
 Definition evlrs_adjacent (rh : rheader) : Prop :=
   h_minor rh >= 4 -> h_nev rh > 0 -> h_evstart rh = rh_offset rh + Z.max 0 (h_count rh) * rh_psize rh.
+(* the file was cut inside its point block after a whole number of records (an interrupted copy): `stored` records, fewer
+   than the header announces, and nothing after them *)
+Definition truncated (f : list Z) (rh : rheader) (stored : Z) : Prop :=
+  dec_header f false = Ok rh /\ bytes_ok f = true /\ rh_compressed rh = false /\ 0 < rh_psize rh
+  /\ 0 <= stored < h_count rh /\ len f = rh_offset rh + stored * rh_psize rh.
